@@ -9,7 +9,7 @@ Definition is_pubcomp (p : packet) : bool := match p with Pubcomp _ => true | _ 
 
 Definition owed_pc (p : ppc) (owed : list packet) : Prop :=
   match p with
-  | PNone | PRecv true | PConnack _ _ | PConnackCancel _ _ | PAll | PResend _ => owed = []
+  | PNone | PRecv true | PConnack _ _ | PConnackCancel _ _ | PAll _ | PResend _ _ | PConnDone _ _ => owed = []
   | PPubAck id => forallb (packet_eqb (Puback id)) owed = true
   | PPubRec id => forallb (packet_eqb (Pubrec id)) owed = true
   | PPubSave p => forall id, get_id p = Some id -> forallb (packet_eqb (Pubrec id)) owed = true
@@ -55,7 +55,7 @@ Proof.
 Qed.
 
 Lemma after_pc_owed a o : after_pc a o -> owed_pc a o.
-Proof. destruct a as [| [|] | | | | | | | | | | | | | | | | | | |]; cbn; auto; try contradiction. intros ->. reflexivity. Qed.
+Proof. destruct a as [| [|] | | | | | | | | | | | | | | | | | | | |]; cbn; auto; try contradiction. intros ->. reflexivity. Qed.
 
 Lemma after_owned d a : after_of d = Some a -> ClientInvCtl.proc_owned d = true.
 Proof. destruct d as [|cu cc [x|]|[x|]|]; cbn; intros H; try discriminate; reflexivity. Qed.
